@@ -132,6 +132,48 @@ class _Return(Exception):
         self.value = value
 
 
+class NeedDecision(Exception):
+    """a branch on a symbolic scalar was met while the list of forced decisions is exhausted"""
+
+
+class Fork:
+    """Path splitting for branches on symbolic *scalar* conditions (operator methods given a symbolic scalar operand).
+    The driver re-interprets the function once per decision sequence (explore_paths); every path carries its path
+    condition in .log as (condition Rat, decision, location)."""
+    def __init__(self, forced=()):
+        self.forced = list(forced)
+        self.log = []
+
+    def decide(self, cond, where):
+        k = len(self.log)
+        if k >= len(self.forced):
+            raise NeedDecision(where)
+        d = self.forced[k]
+        self.log.append((cond, d, where))
+        return d
+
+
+def explore_paths(run, max_paths=8):
+    """run(fork) -> result, interpreted once per feasible decision sequence; returns [(fork.log, result)]"""
+    out = []
+    stack = [[]]
+    n = 0
+    while stack:
+        forced = stack.pop()
+        n += 1
+        if n > 4 * max_paths or len(out) > max_paths:
+            raise AnalysisError("too many paths through branches on symbolic scalars")
+        fk = Fork(forced)
+        try:
+            res = run(fk)
+        except NeedDecision:
+            stack.append(forced + [False])
+            stack.append(forced + [True])
+            continue
+        out.append((fk.log, res))
+    return out
+
+
 NP = NPModule()
 NDARRAY = ATypeRef('ndarray')
 NOT_GIVEN = object()
@@ -182,6 +224,7 @@ class Interp:
         self.oplog = []              # ('call', qualname, objid) / ('read'|'write', attr, objid)
         self.watch_attrs = {'_BCsTerm', '_value', 'BCs'}
         self.recorded_solves = []
+        self.fork = None             # Fork or None: path splitting on symbolic scalar branch conditions
 
     # ------------------------------------------------------------------------------------------
     # calling repo functions
@@ -378,6 +421,10 @@ class Interp:
             self.events.append(('skipped-warn-branch', fr.module, st.lineno, ast.unparse(st.test)))
             return
         if fr.capture is None:
+            if self.fork is not None:
+                d = self.fork.decide(c, f"{fr.module}.py:{st.lineno}: {ast.unparse(st.test)}")
+                self.exec_block(fr, st.body if d else st.orelse)
+                return
             raise AnalysisError(f"branch on a symbolic value at {fr.module}.py:{st.lineno}: {ast.unparse(st.test)}")
         outer = fr.capture
         cap_t = dict(outer)
@@ -759,6 +806,9 @@ class Interp:
             return self.eval(fr, e.body)
         if c is False:
             return self.eval(fr, e.orelse)
+        if self.fork is not None and fr.capture is None:
+            d = self.fork.decide(c, f"{fr.module}.py:{e.lineno}: {ast.unparse(e.test)}")
+            return self.eval(fr, e.body if d else e.orelse)
         raise AnalysisError("conditional expression on a symbolic value")
 
     def ev_Lambda(self, fr, e):
